@@ -128,3 +128,29 @@ def wrapper_frame(it, obj, mark: int, what: str = "call") -> None:
     writes = sorted({n for (o, n) in it.st.ghost.get("$attr_writes", [])[mark:] if o.eq(obj)})
     it.st.check(f"frame:a-{what}-stores-into-no-attribute-of-the-shared-wrapper-object(overlapping-calls-through-one-wrapper-"
                 "are-independent)", z3.BoolVal(not writes), kind="frame", note="attributes written: " + ", ".join(writes))
+
+
+def named_args(cargs, *names):
+    """The arguments of an intercepted call by parameter name, whether the caller passed them positionally or by keyword
+    (a refactoring may switch between the two for positional-or-keyword parameters): names in declaration order."""
+    out = {}
+    for i, n in enumerate(names):
+        out[n] = cargs.pos[i] if i < len(cargs.pos) else cargs.kw.get(n)
+    out["$extra"] = len(cargs.pos) > len(names) or any(k not in names for k in cargs.kw)
+    return out
+
+
+def inside_some_scope(it) -> None:
+    """The call under contract may be made inside an asynchronous scope: the task-group variable then holds that scope's
+    (entered) group.  Helpers are verified for both situations - code that consults the context (ctx.spawn) behaves
+    differently in the two."""
+    st = it.st
+    info = repo_class(it, "context/tasks.py", "TaskGroupContext")
+    var = it.class_attr(info, "_context", V.VCls(z3.IntVal(info.cid)))
+    if st.fork("caller", [("outside-any-scope", True), ("inside-an-async-scope", True)]) == 1:
+        group = lib.LIB["new:TaskGroup"](it, None, CallArgs(), None)
+        st.put(group, "$tg_entered", it.mk_bool(True))
+        st.put(var, "$cvset", it.mk_bool(True))
+        st.put(var, "$cvval", group)
+    else:
+        st.put(var, "$cvset", it.mk_bool(False))
